@@ -37,8 +37,9 @@ structure Dec where
   g : Grammar
   kind : DecKind
 
-/-- what a decoder call can raise -/
-inductive DErr | value | type
+/-- what a decoder call can raise: `ValueError` only (since the fix of `ODLDecoder.decode_datetime`
+    no decoder function leaks another exception type) -/
+inductive DErr | value
   deriving DecidableEq, Repr
 
 /-! ### non-decimal integers -/
@@ -378,7 +379,6 @@ def decodeUnquotedBase (d : Dec) (s : Str) : Except DErr Str :=
   else match decodeDatetime d s with
     | .ok _ => .error .value
     | .error .value => .ok s
-    | .error e => .error e
 
 def decodeUnquoted (d : Dec) (s : Str) : Except DErr Str :=
   match d.kind with
@@ -404,7 +404,6 @@ def decodeSimple (d : Dec) (s : Str) : Except DErr Val :=
         | Option.none =>
           match decodeDatetime d s with
           | .ok v => .ok v
-          | .error .type => .error .type
           | .error .value =>
             match decodeUnquoted d s with
             | .ok u => .ok (.str u)
